@@ -173,7 +173,7 @@ PROPS = {
     ),
     'C11': dict(
         lean=['Props.C11', 'Props.FactsWiring', 'Props.FactsProc', 'Props.Pipeline'],
-        streams=['e2e'],
+        streams=['e2e', 'throttle'],
         rule=E2E_RULE,
         trusted=E2E_TRUSTED + ['go-cptv compression + gzip: validated by decoding every produced file with the standard reader, not proved'],
         assumptions=['in-range settings (fps, preview-secs < 256; strings <= 255 bytes; motion YAML <= 255 bytes)', 'throttle refill disabled in e2e runs (min-refill 100 h, real clock)'],
